@@ -488,7 +488,7 @@ def build_image(img, rng, policy="decoy", mode="random"):
 
         def line_filler(path, node, width, codec, _i=i):
             top = path.split("/")[0]
-            if top in LINE_CONSTANTS:
+            if top in LINE_CONSTANTS and not img.get("vary_constants"):
                 if path not in constants:
                     constants[path] = cfill(path, node, width, codec)
                 return constants[path]
@@ -656,6 +656,14 @@ def build_product(spec):
         iinfo["name"] = name
         files[name] = data
         info["images"].append(iinfo)
+    # content after the last declared record of a file (block padding, a further record the
+    # reader does not know): it belongs to no record, so it must not influence anything
+    trailing = spec.get("trailing") or {}
+    trng = random.Random(f"{spec.get('vseed', 0)}/trailing")
+    targets = {"volume": [names["volume_directory"]], "leader": [names["sar_leader"]], "image": list(names["sar_imagery"])}
+    for what, kind in trailing.items():
+        for fname in targets[what]:
+            files[fname] = files[fname] + trailing_bytes(kind, trng)
     lowres = spec.get("lowres", [])
     files[names["sar_trailer"]], info["trailer_leaves"] = build_trailer(lowres, rng, policy)
     entries = spec.get("summary_entries") or default_summary_entries(spec, names)
@@ -664,6 +672,20 @@ def build_product(spec):
         entries, spec.get("newline", "\n"), spec.get("trailing_newline", True)
     ).encode()
     return files, info
+
+
+def trailing_bytes(kind, rng):
+    n = rng.choice([1, 100, 360, 512, 720, 1024])
+    if kind == "blank":
+        return b" " * n
+    if kind == "nul":
+        return b"\0" * n
+    if kind == "text":
+        # looks like one more text record: printable decoys of a whole record length
+        return V.filler_text(360, rng, "printable").encode("ascii")
+    if kind == "random":
+        return rng.randbytes(n)
+    raise ValueError(kind)
 
 
 def pinned_spec(spec, info, changes):
